@@ -91,14 +91,16 @@ def run(ctx):
                                   {'cases': [[base, v]], 'reference(level nothing)': ref, 'got': got})
     ctx.oblige('correspondence:levels-and-level-changes-unobservable', diffs == 0, f'{diffs} differing runs')
     task_stats = client_task_family(ctx)
+    server_stats = server_task_family(ctx)
     ctx.coverage.update({
-        'evaluations': len(lines) + task_stats.get('runs', 0),
+        'evaluations': len(lines) + task_stats.get('runs', 0) + server_stats.get('runs', 0),
         'distinct_nontrivial': len(nontrivial),
         'rule': 'groups = one scripted stream (valid / mutated / badly framed frames or raw bytes, chunked) run at level nothing plus variants: highest level, a random level, and a level-change command injected at chunk positions (quick: 3 random positions; thorough: every position); non-trivial = the reference run produced wire output or handler calls; distinct by stream',
         'samples': [[groups[0][0][:160], groups[0][1][-1][0][:160], out[0][:200]]],
         'input_classes': kinds,
         'groups': len(groups),
         'client_task_family': task_stats,
+        'server_task_family': server_stats,
         'exhaustive': False,
     })
 
@@ -157,3 +159,84 @@ def client_task_family(ctx):
                                   {'client_cases': [[base, v, dec]], 'reference': ref, 'got': got})
     ctx.oblige('correspondence:client-task-levels-and-level-changes-unobservable', diffs == 0, f'{diffs} differing runs')
     return {'scripts': len(groups), 'runs': sum(len(v) for v in by_dec.values()), 'kinds': kinds}
+
+
+def server_task_family(ctx):
+    """the REAL TCP server task (spawn_tcp_server_task on loopback, harness `sessions` of C15) with raw TCP
+    peers: the same script of connects / writes / closes / garbage / a session parked inside a slow handler,
+    without and with ServerHandle::set_decode_level calls - single ones at any position and bursts of 9..12
+    (more than a session's command queue holds) while a session is busy. Which connections are served after
+    every step, the replies to the probes and the handler's value must be identical."""
+    r = ctx.rng
+    if ctx.replay and 'server_cases' in ctx.replay:
+        groups = [(b, [(v, 'replay')]) for b, v in ctx.replay['server_cases']]
+    elif ctx.replay:
+        return {}
+    else:
+        groups = []
+        n = 24 if ctx.quick() else 300
+        fixed = [('2', ['C', 'C', 'B0', 'U', 'R1:5', 'R0:6']), ('2', ['C', 'B0', 'C', 'R1:3', 'U', 'R0:4']), ('3', ['C', 'C', 'C', 'B1', 'X0', 'U', 'R2:9', 'R1:2'])]
+        while len(groups) < n:
+            if fixed:
+                m, ops = fixed.pop(0)
+            else:
+                m = r.choice(['2', '3'])
+                ops, alive, nxt, parked = ['C'], [0], 1, None
+                for _ in range(r.choice([3, 5, 7])):
+                    free = [k for k in alive if k != parked]
+                    c = r.random()
+                    if c < 0.2 and len(alive) < int(m):
+                        ops.append('C'); alive.append(nxt); nxt += 1
+                    elif c < 0.45 and free:
+                        ops.append(f'R{r.choice(free)}:{r.randrange(1, 60000)}')
+                    elif c < 0.65 and parked is None and alive:
+                        parked = r.choice(alive); ops.append(f'B{parked}')
+                    elif c < 0.8 and parked is not None:
+                        ops.append('U'); parked = None
+                    elif c < 0.9 and len(free) > 1:
+                        k = r.choice(free); alive.remove(k); ops.append(f'X{k}')
+                    elif free:
+                        k = r.choice(free); alive.remove(k); ops.append(f'G{k}')
+                if parked is not None:
+                    ops.append('U')
+                    free = [k for k in alive]
+                    if free:
+                        ops.append(f'R{r.choice(free)}:{r.randrange(1, 60000)}')
+            vs = []
+            p = r.randrange(0, len(ops) + 1)
+            vs.append((ops[:p] + ['D'] + ops[p:], 'single'))
+            b = [i for i, o in enumerate(ops) if o.startswith('B')]
+            p = (b[0] + 1) if b else r.randrange(1, len(ops) + 1)
+            vs.append((ops[:p] + ['D'] * r.choice([9, 10, 12]) + ops[p:], 'burst-while-busy' if b else 'burst'))
+            groups.append((f'{m} ' + ' '.join(ops), [(f'{m} ' + ' '.join(v), k) for v, k in vs]))
+    lines = []
+    for b, vs in groups:
+        lines.append(b)
+        lines.extend(v for v, _ in vs)
+
+    def strip(line, out):
+        ops = line.split()[1:]
+        fields = out.split('|')
+        if len(fields) != len(ops):
+            return out
+        return '|'.join(f for o, f in zip(ops, fields) if o != 'D')
+
+    def run(ls, settle=None):
+        return ctx.harness('sessions', ls, args=([str(settle)] if settle else []), shards=8, timeout=900)
+    out = dict(zip(lines, run(lines)))
+    diffs, kinds = 0, {}
+    for b, vs in groups:
+        for v, kind in vs:
+            kinds[kind] = kinds.get(kind, 0) + 1
+            if strip(v, out[v]) != strip(b, out[b]):
+                # must reproduce with a much longer settle pause (an outcome, not timing)
+                o2 = run([b, v], settle=400)
+                if strip(v, o2[1]) == strip(b, o2[0]):
+                    continue
+                diffs += 1
+                if diffs <= 2:
+                    ctx.violation(f'server-task.{kind}.observable-differs',
+                                  f'real TCP server, {kind}: served connections / replies / handler value differ from the same script without decode-level changes',
+                                  {'server_cases': [[b, v]], 'reference': strip(b, o2[0]), 'got': strip(v, o2[1])})
+    ctx.oblige('correspondence:server-task-level-changes-unobservable', diffs == 0, f'{diffs} differing scripts')
+    return {'scripts': len(groups), 'runs': len(lines), 'kinds': kinds}
